@@ -72,48 +72,53 @@ ob("C07", "F28.return_removed", {"c0": CP, "c1": CP, "c2": CP}, T=200, tier="wit
 
 # K2: argument annotations ----------------------------------------------------------------------------------------------
 def args_annotated(shape, d0, d1):
-    """annotations are added to the parameters; defaults (symbolic text), *args, keyword-only marker, **kwargs must survive"""
+    """annotations are added to the parameters; defaults, *args, keyword-only marker, **kwargs must survive (ASTs parsed from the very header text)"""
     from cdd.shared.ast_cst_utils import maybe_replace_function_args
 
     dflt = S((d0, d1))
-    # the default TEXT must be a Python expression for the header to be real: two digits / letters
     sigs = {
         0: ("a, b=" + dflt, "a: int, b: int=" + dflt),
         1: ("a, *args", "a: int, *args"),
         2: ("a, *, k=" + dflt, "a: int, *, k: int=" + dflt),
         3: ("a, **kwargs", "a: int, **kwargs"),
+        4: ("a, b=" + dflt + ", *args, c=3, **kwargs", "a: int, b: int=" + dflt + ", *args, c: int=3, **kwargs"),
     }
     cur_sig, new_sig = sigs[0]
-    for k in (1, 2, 3):
+    for k in (1, 2, 3, 4):
         if shape == k:
             cur_sig, new_sig = sigs[k]
     before = "\ndef f(" + cur_sig + "):"
     cst = [_hdr(before)]
-    conc = {0: ("a, b=11", "a: int, b: int=11"), 1: sigs[1], 2: ("a, *, k=11", "a: int, *, k: int=11"), 3: sigs[3]}
-    c_cur, c_new = conc[0]
-    for k in (1, 2, 3):
-        if shape == k:
-            c_cur, c_new = conc[k]
-    maybe_replace_function_args(_fn("def f(%s): pass" % c_new), _fn("def f(%s): pass" % c_cur), 0, cst)
+    cur, new = _fn("def f(%s): pass" % cur_sig), _fn("def f(%s): pass" % new_sig)
+    maybe_replace_function_args(new, cur, 0, cst)
     after = cst[0].value
     if not after.startswith("\ndef f(") or not after.endswith("):"):
         return "text outside the argument list changed: %r" % after
-    inner = after[len("\ndef f("):-2]
-    if shape == 0 and ("=" + dflt) not in inner.replace(" ", ""):
-        return "default expression %r lost from the header: %r" % (dflt, after)
-    if shape == 1 and "*args" not in inner:
-        return "*args lost from the header: %r" % after
-    if shape == 2 and ("*," not in inner.replace(" ", "") or ("=" + dflt) not in inner.replace(" ", "")):
-        return "keyword-only marker or its default lost from the header: %r" % after
-    if shape == 3 and "**kwargs" not in inner:
-        return "**kwargs lost from the header: %r" % after
-    if "a: int" not in inner:
-        return "annotation not added"
+    try:
+        got = _fn(after.strip() + " pass")
+    except SyntaxError as e:
+        return "rewritten header is not valid Python: %r (%s)" % (after, e)
+    erase = lambda f: ast.dump(ast.parse(ast.unparse(_strip_ann(f))))
+    if erase(got) != erase(cur):
+        return "the signature changed beyond annotations: %r -> %r" % (before, after)
+    if ast.unparse(got.args) != ast.unparse(new.args):
+        return "annotations not applied: %r" % after
     return ""
 
 
-ob("C07", "F7.args_annotated", {"shape": R(0, 3), "d0": R(48, 57), "d1": R(48, 57)}, T=200, tier="witness", twin=False, funcs=FUNCS[1:2],
-   bound="headers 'def f(a, b=DD)', 'def f(a, *args)', 'def f(a, *, k=DD)', 'def f(a, **kwargs)' with DD = ANY two digits; annotations are added")(args_annotated)
+def _strip_ann(fn):
+    import copy
+
+    fn = copy.deepcopy(fn)
+    for a in fn.args.args + fn.args.kwonlyargs + fn.args.posonlyargs + [x for x in (fn.args.vararg, fn.args.kwarg) if x]:
+        a.annotation = None
+    fn.returns = None
+    return fn
+
+
+ob("C07", "K2.args_annotated", {"shape": R(0, 4), "d0": R(49, 57), "d1": R(48, 57)}, T=400, funcs=FUNCS[1:2],
+   bound="headers 'def f(a, b=DD)', 'def f(a, *args)', 'def f(a, *, k=DD)', 'def f(a, **kwargs)', 'def f(a, b=DD, *args, c=3, **kwargs)' with DD = ANY two digits "
+         "(realised by ast.parse: solver-enumerated); annotations are added: the signature with annotations erased is unchanged")(args_annotated)
 
 
 # K3: docstring replacement touches exactly the docstring node --------------------------------------------------------------
@@ -258,3 +263,136 @@ ob("C07", "K5.error_leaves_file", {"raiser": R(0, 2), "style": R(0, 2), "type_an
    funcs=["cdd.compound.doctrans.doctrans", "cdd.compound.doctrans_utils.doctransify_cst", "cdd.compound.doctrans_utils.DocTrans"],
    bound="cdd.compound.doctrans.doctrans on a scratch file (outside /repo and /verif) holding a convertible function plus a definition on which the CST stage "
          "raises (stub body '...', bare number) or nothing; target style, --type-annotations, word-wrap: solver-enumerated. On error the file is byte-identical; on success the comments survive")(error_leaves_file)
+
+
+# K6: the program is unchanged: AST identical once docstrings and annotations are erased (whole command on fixture modules) ---------------------
+FIXTURE = ('''# module comment
+import os
+
+
+def plain(a, b=12, *args, c=3, **kwargs):
+    """
+    Plain doc.
+
+    :param a: the a
+    :type a: ```int```
+
+    :param b: the b
+    :type b: ```int```
+
+    :return: res
+    :rtype: ```int```
+    """
+    # inner comment
+    return a
+
+
+def kwonly(host, port, *, timeout: float = 3.0, retries: int = 2):
+    """
+    Kw doc.
+
+    :param host: the host
+
+    :param port: the port
+
+    :param timeout: the timeout
+
+    :param retries: the retries
+    """
+    return host
+
+
+class K(object):
+    """
+    K doc.
+
+    :cvar x: the x
+    """
+
+    x: int = 5
+
+    @staticmethod
+    def meth(self_like, key="k", *rest):
+        """
+        Meth doc.
+
+        :param key: the key
+        :type key: ```str```
+        """
+        def nested(z=1):
+            return z
+        return nested(key)
+''')
+
+
+def _erase(mod):
+    import copy
+
+    mod = copy.deepcopy(mod)
+    for node in ast.walk(mod):
+        if isinstance(node, (ast.FunctionDef, ast.AsyncFunctionDef, ast.ClassDef, ast.Module)):
+            if node.body and isinstance(node.body[0], ast.Expr) and isinstance(getattr(node.body[0], "value", None), ast.Constant) and isinstance(node.body[0].value.value, str):
+                node.body = node.body[1:] or [ast.Pass()]
+        if isinstance(node, (ast.FunctionDef, ast.AsyncFunctionDef)):
+            node.returns = None
+            for a in node.args.args + node.args.kwonlyargs + node.args.posonlyargs + [x for x in (node.args.vararg, node.args.kwarg) if x]:
+                a.annotation = None
+                a.type_comment = None
+    for node in ast.walk(mod):
+        body = getattr(node, "body", None)
+        if isinstance(body, list):
+            for i, st in enumerate(body):
+                if isinstance(st, ast.AnnAssign) and st.value is not None:
+                    body[i] = ast.Assign(targets=[st.target], value=st.value, lineno=0, col_offset=0)
+    return ast.dump(mod)
+
+
+def program_unchanged(style, type_annotations, no_word_wrap):
+    import contextlib
+    import io
+
+    from cdd.compound.doctrans import doctrans
+
+    fmt = STYLES[0]
+    for k in (1, 2):
+        if style == k:
+            fmt = STYLES[k]
+    _N[0] += 1
+    filename = os.path.join(_ROOT, "p%d.py" % _N[0])
+    with open(filename, "wt") as f:
+        f.write(FIXTURE)
+    err = None
+    try:
+        with contextlib.redirect_stdout(io.StringIO()), contextlib.redirect_stderr(io.StringIO()):
+            try:
+                doctrans(filename=filename, docstring_format=fmt, type_annotations=type_annotations, no_word_wrap=True if no_word_wrap else None)
+            except Exception as e:
+                err = e
+        with open(filename, "rt") as f:
+            after = f.read()
+    finally:
+        os.remove(filename)
+    if err is not None:
+        return "" if after == FIXTURE else "failed conversion changed the file"
+    try:
+        mod = ast.parse(after)
+    except SyntaxError as e:
+        return "the converted file is not valid Python: %s" % e
+    if _erase(mod) != _erase(ast.parse(FIXTURE)):
+        heads = [l for l in after.splitlines() if l.lstrip().startswith(("def ", "class ", "@"))]
+        return "the program changed (AST differs once docstrings and annotations are erased); headers now: %r" % (heads,)
+    for c in ("# module comment", "# inner comment"):
+        if c not in after:
+            return "comment %r lost" % c
+    return ""
+
+
+ob("C07", "K6.program_unchanged.wrap", {"style": R(0, 2), "type_annotations": BOOL, "no_word_wrap": R(0, 0)}, T=900, tpath=200, tier="thorough",
+   funcs=["cdd.compound.doctrans.doctrans"], bound="as K6.program_unchanged with word-wrap ON")(program_unchanged)
+ob("C07", "K6.program_unchanged", {"style": R(0, 2), "type_annotations": BOOL, "no_word_wrap": R(1, 1)}, T=900, tpath=200,
+   funcs=["cdd.compound.doctrans.doctrans", "cdd.compound.doctrans_utils.DocTrans", "cdd.compound.doctrans_utils.doctransify_cst",
+          "cdd.shared.ast_cst_utils.maybe_replace_function_args", "cdd.shared.ast_cst_utils.maybe_replace_function_return_type",
+          "cdd.shared.ast_cst_utils.maybe_replace_doc_str_in_function_or_class"],
+   bound="the whole doctrans() on a scratch fixture module (function with defaults/*args/kw-only/**kwargs and a trailing comment, function with annotated keyword-only "
+         "parameters, class with attribute, decorated method with a nested function) x target style x --type-annotations (solver-enumerated; word-wrap off here, on in the thorough twin): valid Python, "
+         "AST identical once docstrings and annotations are erased, comments kept")(program_unchanged)
